@@ -89,6 +89,8 @@ def parseOp (s : Side) (j : Json) : Except String Op := do
   | "setAttr" => return .setAttr (← resolveRef s (← j.getObjVal? "o")) (← getStr j "name") (← parseArg s (← j.getObjVal? "a"))
   | "mutAttr" => return .mutAttr (← resolveRef s (← j.getObjVal? "o")) (← getStr j "name") (← getInt j "n")
   | "selAdd" => return .selAdd (← resolveRef s (← j.getObjVal? "o")) (← getStr j "p") (← getInt j "n")
+  | "watchPartial" => return .watchPartial (← resolveRef s (← j.getObjVal? "o")) (← getStr j "p") (← resolveRef s (← j.getObjVal? "target")) (← getStr j "cb")
+  | "watchSlot" => return .watchSlot (← resolveRef s (← j.getObjVal? "o")) (← getStr j "p") (← resolveRef s (← j.getObjVal? "target")) (← getStr j "cb")
   | "watch" => return .watch (← resolveRef s (← j.getObjVal? "o")) (← getStr j "p") (← resolveRef s (← j.getObjVal? "target")) (← getStr j "cb")
   | o => throw s!"unknown op {o}"
 
@@ -123,10 +125,14 @@ def jVal : SVal → Json
   | .cell c l => Json.mkObj [("c", toJson c), ("v", jInts l)]
   | .obj o => Json.mkObj [("o", toJson o)]
 
+def jW (wt : SWatcher) : Json :=
+  Json.arr #[toJson wt.inst, Json.str wt.kind, toJson wt.owner, Json.str wt.method, jOpt jChanged wt.changed, toJson wt.precedence]
+
 def jObj (o : SObj) : Json := Json.mkObj [
   ("cls", Json.str o.cls),
   ("values", Json.arr (o.values.map fun (n, own, v) => Json.arr #[Json.str n, Json.bool own, jVal v]).toArray),
-  ("pcopies", Json.arr (o.pcopies.map fun (n, b, c) => Json.arr #[Json.str n, jOpt jPair b, Json.bool c]).toArray),
+  ("pcopies", Json.arr (o.pcopies.map fun (n, b, c, sw) =>
+      Json.arr #[Json.str n, jOpt jPair b, Json.bool c, Json.arr (sw.map jW).toArray]).toArray),
   ("sel", Json.arr (o.sel.map fun (n, own, os, ns) => Json.arr #[Json.str n, Json.bool own, jInts os, jInts ns]).toArray),
   ("attrs", Json.arr (o.attrs.map fun (n, v) => Json.arr #[Json.str n, jVal v]).toArray),
   ("watchers", Json.arr (o.watchers.map fun (n, ws) => Json.arr #[Json.str n, Json.arr (ws.map fun wt =>
@@ -171,6 +177,11 @@ def pChanged (j : Json) : Except String (Option (List (String × Option (List St
       pure (← a[0]!.getStr?, ← pOptStrs a[1]!)
     pure (some l)
 
+def pW (x : Json) : Except String SWatcher := do
+  let q ← x.getArr?
+  pure ({ inst := ← q[0]!.getNat?, kind := ← q[1]!.getStr?, owner := ← q[2]!.getNat?, method := ← q[3]!.getStr?,
+          changed := ← pChanged q[4]!, precedence := ← q[5]!.getInt? } : SWatcher)
+
 def pObj (j : Json) : Except String SObj := do
   let values ← (← getArr j "values").toList.mapM fun e => do
     let a ← e.getArr?
@@ -182,7 +193,7 @@ def pObj (j : Json) : Except String SObj := do
       | v => do
         let q ← v.getArr?
         pure (some (← q[0]!.getInt?, ← q[1]!.getInt?))
-    pure (← a[0]!.getStr?, b, ← a[2]!.getBool?)
+    pure (← a[0]!.getStr?, b, ← a[2]!.getBool?, ← (← a[3]!.getArr?).toList.mapM pW)
   let sel ← (← getArr j "sel").toList.mapM fun e => do
     let a ← e.getArr?
     pure (← a[0]!.getStr?, ← a[1]!.getBool?, ← ints a[2]!, ← ints a[3]!)
